@@ -54,6 +54,9 @@ def run(res, tier):
     units = [(s, w, tier) for s in SALTS for w in WV]
     for w in pmap(_work, permuted(units, "c15"), chunk=1):
         res.merge_worker(w)
+    from ..common import hostile_runs
+
+    hostile_runs(res, "mc.checks.c15", "_work", [[s_, "123", "quick"] for s_ in (None, "s", "é", "'")])
     res.set("states", res.cov.get("programs", 0))
     res.set("transitions", res.cov.get("evaluations", 0))
     res.set("traces_validated_against_impl", res.cov.get("evaluations", 0))
@@ -63,6 +66,11 @@ def run(res, tier):
 
 def replay(data):
     from ..common import dec
+
+    if data.get("host_environment"):
+        from ..common import replay_in_host
+
+        return replay_in_host(data, "mc.checks.c15", "_work", [[s_, "123", "quick"] for s_ in (None, "s", "é", "'")])
 
     if data.get("kind") in ("same-str", "extra"):
         b = impl.build(data["text"])
